@@ -24,6 +24,7 @@ const (
 	KValidate     = "validate"      // expr.Validate(e)
 	KUnmarshal    = "unmarshal"     // json.Unmarshal(doc, &fresh)
 	KNewDriver    = "newdriver"     // driver.NewPostgresDriver()  (reads driver.Shared)
+	KMisc         = "misc"          // the less travelled entry points: other fmt verbs, Validate on sub-trees and non-expressions, Operator.String out of range, Unmarshal into a value that already holds a tree
 	KEditPrint    = "editprint"     // private tree: print/render, legally edit a leaf, print/render again; must equal a fresh clone's output
 	KSpawn        = "spawn"         // start a late task
 	KPublish      = "publish"       // build a shared expression mid-run and publish it (atomic.Pointer)
@@ -464,11 +465,11 @@ func genExprSpec(r *zsimrt.Rand, c *corpus, renderBias bool) ExprSpec {
 }
 
 var (
-	kindsAll       = []string{KEditPrint, KParse, KParse, KToPG, KToParam, KRender, KRenderParam, KRenderParam, KCRender, KCRenderParam, KString, KGoString, KSprint, KMarshal, KMarshalDir, KValidate, KUnmarshal, KNewDriver}
+	kindsAll       = []string{KMisc, KEditPrint, KParse, KParse, KToPG, KToParam, KRender, KRenderParam, KRenderParam, KCRender, KCRenderParam, KString, KGoString, KSprint, KMarshal, KMarshalDir, KValidate, KUnmarshal, KNewDriver}
 	kindsRender    = []string{KRender, KRenderParam, KRenderParam, KCRender, KCRenderParam, KToPG, KToParam, KString}
 	kindsParse     = []string{KParse, KParse, KParse, KToPG, KToParam, KUnmarshal, KValidate}
-	kindsPrint     = []string{KEditPrint, KString, KGoString, KSprint, KMarshal, KMarshal, KMarshalDir, KValidate, KUnmarshal, KRenderParam}
-	kindsSubj      = []string{KEditPrint, KRender, KRender, KRenderParam, KRenderParam, KCRender, KCRenderParam, KString, KGoString, KSprint, KMarshal, KMarshalDir, KValidate}
+	kindsPrint     = []string{KMisc, KEditPrint, KString, KGoString, KSprint, KMarshal, KMarshal, KMarshalDir, KValidate, KUnmarshal, KRenderParam}
+	kindsSubj      = []string{KMisc, KEditPrint, KRender, KRender, KRenderParam, KRenderParam, KCRender, KCRenderParam, KString, KGoString, KSprint, KMarshal, KMarshalDir, KValidate}
 	kindsRenderish = []string{KRender, KRender, KRender, KRender, KRenderParam, KRenderParam, KRenderParam, KCRender, KCRenderParam, KString, KMarshal, KValidate}
 	kindsGlobal    = []string{KParse, KParse, KToPG, KToPG, KToParam, KToParam, KNewDriver, KUnmarshal}
 )
@@ -526,6 +527,9 @@ func genOp(r *zsimrt.Rand, c *corpus, sc *Scenario, bias, faultPerm, hot int) Op
 	} else {
 		sp := genExprSpec(r, c, op.Kind == KRender || op.Kind == KRenderParam || op.Kind == KCRender || op.Kind == KCRenderParam)
 		op.Priv = &sp
+	}
+	if op.Kind == KMisc {
+		op.Query = c.jsonDoc(r)
 	}
 	switch op.Kind {
 	case KRender, KRenderParam:
